@@ -28,16 +28,18 @@ type unlimitedSchedule struct {
 }
 
 func (s *unlimitedSchedule) Start(startAt time.Time) {
-	s.MarkStarted()
+	// Store finish before the schedule is marked started: Left() treats a started schedule as finished
+	// as soon as finish is in the past, and finish is the creation time until it is stored here.
 	s.startOnce.Do(func() {
 		s.finish.Store(startAt.Add(s.duration))
 	})
+	s.MarkStarted()
 }
 
 func (s *unlimitedSchedule) Next() (tx time.Time, ok bool) {
 	s.startOnce.Do(func() {
-		s.MarkStarted()
 		s.finish.Store(time.Now().Add(s.duration))
+		s.MarkStarted()
 	})
 	now := time.Now()
 	finish := s.finish.Load()
